@@ -42,7 +42,7 @@ if os.path.realpath(sys.executable) != os.path.realpath(PY) and os.environ.get("
 from props import PROPS, DIRECT_N  # noqa
 
 ALLOWED_AXIOMS = {"propext", "Classical.choice", "Quot.sound"}
-FORBIDDEN = re.compile(r"\bsorry\b|\badmit\b|^\s*axiom\s|native_decide|bv_decide|implemented_by|\bunsafe\s|maxHeartbeats\s+0")
+FORBIDDEN = re.compile(r"\bsorry\b|(?<![\w.])admit\b|^\s*axiom\s|native_decide|bv_decide|implemented_by|\bunsafe\s|maxHeartbeats\s+0")
 
 
 def log(*a):
@@ -220,7 +220,8 @@ def do_replay(pid, path):
     payload = json.load(open(path))
     kind = payload.get("kind")
     if kind == "case":
-        out = cases.run_case((payload["stream"], payload["seed"], [pid]))
+        out = cases.run_case((payload["stream"], payload["seed"], [pid],
+                              {"spec": payload.get("spec"), "opt": payload.get("opt")}))
         v = [x for x in out.get("violations", []) if x["prop"] == pid]
         log("replay of %s stream=%s seed=%s: %d violations of %s" % (path, payload["stream"], payload["seed"], len(v), pid))
         for x in v[:5]:
@@ -273,7 +274,10 @@ def main():
     jobs = []
     corpus = load_corpus(pid)
     for c in corpus:
-        jobs.append((c["stream"], c["seed"], None))
+        if c.get("spec") and c.get("opt"):
+            jobs.append((c["stream"], "corpus:" + c["_file"], None, {"spec": c["spec"], "opt": c["opt"]}))
+        else:
+            jobs.append((c["stream"], c["seed"], None))
     for (stream, nq, nt) in cfg.get("streams", []):
         n = nq if tier == "quick" else nt
         for i in range(n):
@@ -401,6 +405,8 @@ def main():
         else:
             spec = [r["spec"] for r in results if r["stream"] == v["stream"] and r["seed"] == v["seed"]]
             payload["spec"] = spec[0] if spec else None
+            opt = [r.get("opt") for r in results if r["stream"] == v["stream"] and r["seed"] == v["seed"]]
+            payload["opt"] = opt[0] if opt else None
         replay_path = write_replay(pid, payload)
         log("VIOLATION property=%s replay=%s" % (pid, replay_path))
         log("   %s: %s" % (v["kind"], str(v.get("detail"))[:300]))
@@ -461,6 +467,7 @@ def load_corpus(pid):
             if f.endswith(".json"):
                 c = json.load(open(os.path.join(d, f)))
                 if pid in c.get("props", []):
+                    c["_file"] = f[:-5]
                     out.append(c)
     return out
 
